@@ -285,7 +285,7 @@ var (
 	Blur              = regexp.MustCompile(`^blur\([0-9]+px\)$`)
 	BrightnessCont    = regexp.MustCompile(`^(brightness|contrast)\([0-9]+\%\)$`)
 	Count             = regexp.MustCompile(`^[0-9]+[\.]?[0-9]*$`)
-	CubicBezier       = regexp.MustCompile(`^cubic-bezier\(([ ]*(0(.[0-9]+)?|1(.0)?),){3}[ ]*(0(.[0-9]+)?|1)\)$`)
+	CubicBezier       = regexp.MustCompile(`^cubic-bezier\(([ ]*(0(\.[0-9]+)?|1(\.0)?),){3}[ ]*(0(\.[0-9]+)?|1)\)$`)
 	Digits            = regexp.MustCompile(`^digits [2-4]$`)
 	DropShadow        = regexp.MustCompile(`drop-shadow\(([-]?[0-9]+px) ([-]?[0-9]+px)( [-]?[0-9]+px)?( ([-]?[0-9]+px))?`)
 	dropShadowOnly    = regexp.MustCompile(`^drop-shadow\(([-]?[0-9]+px) ([-]?[0-9]+px)( [-]?[0-9]+px)?( ([-]?[0-9]+px))?\)$`)
@@ -322,7 +322,7 @@ var (
 	Time              = regexp.MustCompile(`^[0-9]+[\.]?[0-9]*(s|ms)?$`)
 	TransitionProp    = regexp.MustCompile(`^([a-zA-Z]+,[ ]?)*[a-zA-Z]+$`)
 	TranslateScale    = regexp.MustCompile(`(translate|translate3d|translatex|translatey|translatez|scale|scale3d|scalex|scaley|scalez)\(`)
-	URL               = regexp.MustCompile(`^url\([\"\']?((https|http)[a-z0-9\./_:]+[\"\']?)\)$`)
+	URL               = regexp.MustCompile(`^url\([\"\']?((https|http):[a-z0-9\./_:]+[\"\']?)\)$`)
 	ZIndex            = regexp.MustCompile(`^[\-]?[0-9]+$`)
 )
 
